@@ -95,6 +95,23 @@ theorem alpha_partial (n : Nat) (h0 : 0 < n) (h1 : n ≤ 26) :
   rw [eq_of_isOk h]
   simp [Spec.Labels.alpha, h0, Except.toOption]
 
+/-- The loop bound of the letters model is never the reason it stops: any fuel `≥ value` gives
+the same result (the code's `while value != 0` terminates since `(value − 1) / 26 < value`). -/
+theorem alpha_fuel_suffices : ∀ (f v : Nat) (acc : Text), v ≤ f →
+    ∀ k, alphaLoop (f + k) v acc = alphaLoop f v acc
+  | 0, v, acc, h, k => by
+    have : v = 0 := by omega
+    subst this
+    cases k <;> simp [alphaLoop]
+  | f + 1, v, acc, h, k => by
+    have e : f + 1 + k = (f + k) + 1 := by omega
+    rw [e]
+    simp only [alphaLoop]
+    by_cases hv : v = 0
+    · simp [hv]
+    · simp only [hv, if_false]
+      exact alpha_fuel_suffices f ((v - 1) / 26) _ (by have := Nat.div_le_self (v - 1) 26; omega) k
+
 /-! ## Number trees and page labels (ISO 32000-1 7.9.7, 12.4.2) -/
 
 section PageLabels
